@@ -364,7 +364,8 @@ func runC15(c runCfg) error {
 			continue // not accepted by the loader: outside the property
 		}
 		kinds[m.kind]++
-		cases = append(cases, fmt.Sprintf("C15 %s %s %s %s", m.base, m.kind, m.path, dialect.Hx(string(m.doc))))
+		// (the path of the mutated node is one field of the line: a key with a space in it — a media type with parameters — must not split it)
+		cases = append(cases, fmt.Sprintf("C15 %s %s %s %s", m.base, m.kind, strings.ReplaceAll(m.path, " ", "%20"), dialect.Hx(string(m.doc))))
 		cs := ""
 		if v, ok := cli[i]; ok {
 			cs = " cli=" + v
